@@ -251,3 +251,133 @@ func keyID(v ssa.Value) string {
 	}
 	return fmt.Sprintf("%p", v)
 }
+
+// c12SyncComparesPrefix (C12.P9): handleRemoteChange may skip applying an announced record because the subscriber is
+// already known only where it has compared what the session allocator holds with what was announced.  Every return
+// of the function that is conditional on a non-nil result of IPAllocator.Lookup (directly or through a helper that
+// returns it) also carries a true equality fact over a value computed from that result; otherwise a remote move of a
+// known subscriber is dropped and memory keeps the old address while the store has the new one.
+func c12SyncComparesPrefix(c *Ctx) {
+	r := c.R
+	f := c.fn("pkg/allocator", "DistributedAllocator", "handleRemoteChange")
+	if f == nil {
+		r.Check("C12.P9.syncComparesPrefix", "DistributedAllocator.handleRemoteChange", "anchor present", "", false, "function not found")
+		return
+	}
+	var fromLookup func(v ssa.Value, depth int) bool
+	fromLookup = func(v ssa.Value, depth int) bool {
+		if depth > 4 {
+			return false
+		}
+		switch x := flow.Strip(v).(type) {
+		case *ssa.Call:
+			g := x.Call.StaticCallee()
+			if g == nil {
+				return false
+			}
+			if g.Name() == "Lookup" && flow.RecvTypeName(g) == "IPAllocator" {
+				return true
+			}
+			if g.Pkg == f.Pkg && len(g.Blocks) > 0 {
+				for _, b := range g.Blocks {
+					if ret, ok := b.Instrs[len(b.Instrs)-1].(*ssa.Return); ok {
+						for _, rv := range flow.ReturnValues(ret) {
+							if fromLookup(rv, depth+1) {
+								return true
+							}
+						}
+					}
+				}
+			}
+		case *ssa.Phi:
+			for _, e := range x.Edges {
+				if fromLookup(e, depth+1) {
+					return true
+				}
+			}
+		case *ssa.Extract:
+			return fromLookup(x.Tuple, depth+1)
+		}
+		return false
+	}
+	var dependsOn func(v, target ssa.Value, depth int) bool
+	dependsOn = func(v, target ssa.Value, depth int) bool {
+		if v == target || flow.Strip(v) == target {
+			return true
+		}
+		if depth > 5 {
+			return false
+		}
+		in, ok := v.(ssa.Instruction)
+		if !ok {
+			return false
+		}
+		for _, op := range in.Operands(nil) {
+			if *op != nil && dependsOn(*op, target, depth+1) {
+				return true
+			}
+		}
+		return false
+	}
+	isNil := func(v ssa.Value) bool { k, ok := v.(*ssa.Const); return ok && k.IsNil() }
+	n := 0
+	for _, b := range f.Blocks {
+		if len(b.Instrs) == 0 {
+			continue
+		}
+		ret, ok := b.Instrs[len(b.Instrs)-1].(*ssa.Return)
+		if !ok || b == f.Recover {
+			continue
+		}
+		facts := flow.FactsAt(b)
+		var held ssa.Value
+		for _, ft := range facts {
+			bo, ok := ft.Cond.(*ssa.BinOp)
+			if !ok {
+				continue
+			}
+			nonNil := (bo.Op == token.NEQ && ft.Pol) || (bo.Op == token.EQL && !ft.Pol)
+			if !nonNil {
+				continue
+			}
+			if isNil(bo.Y) && fromLookup(bo.X, 0) {
+				held = flow.Strip(bo.X)
+			} else if isNil(bo.X) && fromLookup(bo.Y, 0) {
+				held = flow.Strip(bo.Y)
+			}
+		}
+		if held == nil {
+			continue
+		}
+		n++
+		compared := false
+		for _, ft := range facts {
+			bo, ok := ft.Cond.(*ssa.BinOp)
+			if !ok || isNil(bo.X) || isNil(bo.Y) {
+				continue
+			}
+			eq := (bo.Op == token.EQL && ft.Pol) || (bo.Op == token.NEQ && !ft.Pol)
+			if eq && (dependsOn(bo.X, held, 0) || dependsOn(bo.Y, held, 0)) {
+				compared = true
+			}
+		}
+		// a call whose boolean result is the fact (e.g. bytes.Equal / IP.Equal on the held prefix)
+		for _, ft := range facts {
+			if call, ok := ft.Cond.(*ssa.Call); ok && ft.Pol && dependsOn(call, held, 0) {
+				compared = true
+			}
+		}
+		r.Check("C12.P9.syncComparesPrefix", load.ShortFunc(f), "'already known' return compares the held prefix with the announced one", c.P.Pos(instrPos(ret)), compared,
+			"the announcement is dropped as soon as the subscriber has any address in the session allocator: a remote put that moves a known subscriber to another prefix is ignored, memory keeps the old address (the announced one stays free locally and can be handed to a second subscriber) while the store holds the new one")
+	}
+	set := false
+	for _, call := range flow.Calls(f) {
+		if g := call.Common().StaticCallee(); g != nil && g.Name() == "SetAllocation" && flow.RecvTypeName(g) == "IPAllocator" {
+			set = true
+		}
+	}
+	r.Check("C12.P9.syncComparesPrefix", load.ShortFunc(f), "announced record applied with SetAllocation", c.P.Pos(f.Pos()), set, "handleRemoteChange no longer applies an announced record to the session allocator")
+	if n == 0 {
+		r.Note("C12.P9: handleRemoteChange has no return conditional on an existing session allocation (every announcement is applied)")
+	}
+}
